@@ -182,6 +182,7 @@ type SeqMem struct {
 	memo    []seqEntry // materialised symbolic elements of the base
 	parent    *SeqMem // append: elements below parentLen are the parent's
 	parentLen *Term
+	allWF     *Term // elements with index < allWF satisfy wf (assumed universal fact, instantiated at reads)
 }
 
 // ---------- helper functions on types ----------
